@@ -205,9 +205,9 @@ def work(args):
                       [("c", neg + 1, b"beyond"), ("s", neg + 1, b"beyond")]]
             setup = None
         elif kind == "versions":
-            cv, sv = c, s
-            cfg = ps.Cfg(version=cv, v0=(0, 1, 1), minor_version=4, max_substream=(1 if cv else 0), resend_limit=1, resend_timeout=0.5)
-            cfgs = ps.Cfg(version=sv, v0=(0, 1, 1), minor_version=4, max_substream=(1 if sv else 0), resend_limit=1, resend_timeout=0.5)
+            (cv, lim), sv = (c if isinstance(c, tuple) else (c, 1)), s
+            cfg = ps.Cfg(version=cv, v0=(0, 1, 1), minor_version=4, max_substream=(1 if cv else 0), resend_limit=lim, resend_timeout=0.5)
+            cfgs = ps.Cfg(version=sv, v0=(0, 1, 1), minor_version=4, max_substream=(1 if sv else 0), resend_limit=lim, resend_timeout=0.5)
             script = [[("c", 0, b"ping"), ("s", 0, b"pong")]]
             setup = None
         elif kind == "lite":
@@ -254,6 +254,7 @@ def work(args):
                     if (side, want[1] + 1) not in errs:
                         bad.append("send on substream %d (beyond the negotiated %d) was not refused at %s" % (want[1] + 1, want[1], side))
         elif kind == "versions":
+            (cv, lim), sv = (c if isinstance(c, tuple) else (c, 1)), s
             compatible = (cv == 0 and sv in (0, 2)) or (cv in (1, 2) and sv in (1, 2))
             if compatible != connected:
                 bad.append("client prudp.version=%d, server prudp.version=%d: connected=%s, expected %s" % (cv, sv, connected, compatible))
@@ -264,8 +265,9 @@ def work(args):
                 if sess.got.get(("s", 0)) != [b"ping"] or sess.got.get(("c", 0)) != [b"pong"]:
                     bad.append("version pair %d/%d connected but data did not flow" % (cv, sv))
             else:
-                if sess.timed_out or sess.crash:
-                    bad.append("incompatible versions %d/%d did not fail cleanly (timed_out=%s crash=%s)" % (cv, sv, sess.timed_out, sess.crash))
+                if sess.timed_out or sess.crash or "PRUDP connection failed" not in str(sess.connect_error):
+                    bad.append("incompatible versions %d/%d (resend_limit %d) did not fail cleanly with the library's connection error: connect ended with %s (timed_out=%s crash=%s, session ran %.1f s of virtual time)"
+                               % (cv, sv, lim, str(sess.connect_error)[:120], sess.timed_out, sess.crash, sess.end_time))
         elif kind == "lite":
             want = (min(cm, sm), 0, cf & sf)
             if not connected:
@@ -360,6 +362,8 @@ def cases(rng, quick):
     for cv in (0, 1, 2):
         for sv in (0, 1, 2):
             out.append(("versions", cv, sv))
+            for lim in (0, 3):      # every retransmission budget, the empty one included: incompatible peers fail, they do not hang
+                out.append(("versions", (cv, lim), sv))
     lt = [(m, f) for m in (0, 3, 6) for f in (0, 0x0F, 0xFFFFFF)]
     for c in lt:
         for s in (lt if not quick else rng.sample(lt, 3)):
